@@ -5,6 +5,7 @@ package main
 //   pal.hist <kind> <gb> <len> <ctor> <ops> => <obs>
 
 import (
+	"bufio"
 	"bytes"
 	"encoding/binary"
 	"fmt"
@@ -107,6 +108,97 @@ func c12ShowAll(xs []int) string {
 		h = h*1099511628211 + uint64(v)
 	}
 	return fmt.Sprintf("#%016x", h)
+}
+
+// ---------- reader kinds (the op line names the kind: rf:<kind>:<hex>) ----------
+
+// c12Plain is a conforming io.Reader over a byte string that does NOT implement io.ByteReader.
+//
+//	ob  one byte per Read
+//	rc  chunks of pseudo-random size (derived from the content, so a replay reproduces them)
+//	de  whatever is asked for, the final bytes delivered together with io.EOF
+//	do  one byte per Read, the final byte delivered together with io.EOF
+//	zn  every third call returns (0, nil)
+type c12Plain struct {
+	data  []byte
+	pos   int
+	calls int
+	mode  string
+	lcg   uint32
+}
+
+func (r *c12Plain) Read(p []byte) (int, error) {
+	r.calls++
+	if len(p) == 0 {
+		return 0, nil
+	}
+	if r.mode == "zn" && r.calls%3 == 0 {
+		return 0, nil
+	}
+	if r.pos >= len(r.data) {
+		return 0, io.EOF
+	}
+	k := len(p)
+	switch r.mode {
+	case "ob", "do":
+		k = 1
+	case "rc":
+		r.lcg = r.lcg*1664525 + 1013904223
+		k = 1 + int(r.lcg>>24)%7
+	}
+	if k > len(p) {
+		k = len(p)
+	}
+	if k > len(r.data)-r.pos {
+		k = len(r.data) - r.pos
+	}
+	copy(p, r.data[r.pos:r.pos+k])
+	r.pos += k
+	if (r.mode == "de" || r.mode == "do") && r.pos == len(r.data) {
+		return k, io.EOF
+	}
+	return k, nil
+}
+
+var c12ReaderKinds = []string{"br", "bb", "bu", "ob", "rc", "de", "do", "zn"}
+
+// c12MakeReader builds the reader of the named kind over `in` and a function reporting how many bytes of
+// `in` have not been handed to the consumer (for bufio: including what it has buffered but not delivered).
+func c12MakeReader(kind string, in []byte) (io.Reader, func() int) {
+	limited := strings.HasPrefix(kind, "lr")
+	base := strings.TrimPrefix(kind, "lr")
+	var r io.Reader
+	var left func() int
+	switch base {
+	case "br":
+		b := bytes.NewReader(in)
+		r, left = b, b.Len
+	case "bb":
+		b := bytes.NewBuffer(append([]byte(nil), in...))
+		r, left = b, b.Len
+	case "bu":
+		b := bytes.NewReader(in)
+		u := bufio.NewReaderSize(b, 16)
+		r, left = u, func() int { return b.Len() + u.Buffered() }
+	case "ob", "rc", "de", "do", "zn":
+		p := &c12Plain{data: in, mode: base, lcg: uint32(len(in))*2654435761 + 12345}
+		r, left = p, func() int { return len(p.data) - p.pos }
+	default:
+		panic("unknown reader kind " + kind)
+	}
+	if limited {
+		r = &io.LimitedReader{R: r, N: int64(len(in))}
+	}
+	return r, left
+}
+
+// c12RF is the op text for a ReadFrom of `in` through a randomly chosen reader kind.
+func (c *Ctx) c12RF(in []byte) string {
+	kind := c12ReaderKinds[c.R.Intn(len(c12ReaderKinds))]
+	if c.R.Intn(5) == 0 {
+		kind = "lr" + kind
+	}
+	return "rf:" + kind + ":" + hx(in)
 }
 
 // ---------- a live history ----------
@@ -215,14 +307,17 @@ func (h *c12Hist) apply(op string) {
 			}
 			h.lastWT = append([]byte(nil), buf.Bytes()...)
 		case "rf":
-			in := unhx(f[1])
-			r := bytes.NewReader(in)
+			kind, hexIn := "br", f[1]
+			if len(f) == 3 {
+				kind, hexIn = f[1], f[2]
+			}
+			r, left := c12MakeReader(kind, unhx(hexIn))
 			n, err := h.c.ReadFrom(r)
 			if err != nil {
-				o = fmt.Sprintf("err:%d", r.Len())
+				o = fmt.Sprintf("err:%d", left())
 				h.ended = true
 			} else {
-				o = fmt.Sprintf("ok:%d:%d", n, r.Len())
+				o = fmt.Sprintf("ok:%d:%d", n, left())
 			}
 		default:
 			panic("unknown op " + op)
@@ -465,7 +560,7 @@ func (c *Ctx) c12RandomOp(h *c12Hist, known []int) {
 			h.apply("wt")
 			if !h.dead && !h.ended {
 				in := append(append([]byte(nil), h.lastWT...), c.c11Bytes(c.R.Intn(4))...)
-				h.apply("rf:" + hx(in))
+				h.apply(c.c12RF(in))
 				h.apply("all")
 			}
 		}
@@ -512,6 +607,128 @@ func (c *Ctx) c12Source(kind string, n, d int) []byte {
 	h.apply("wt")
 	h.emit(c)
 	return h.lastWT
+}
+
+// widths of the wire representations: 0 single value, then the indirect widths, last the direct width
+func c12Widths(kind string) []int {
+	if kind == "blocks" {
+		return []int{0, 4, 5, 6, 7, 8, c12GB(kind)}
+	}
+	return []int{0, 1, 2, 3, c12GB(kind)}
+}
+
+// c12HandWire builds the wire form of a container of n entries whose data array has width w, with a fresh
+// random palette (returned; for the direct width: the ids used), without going through the code under test.
+func (c *Ctx) c12HandWire(kind string, n, w int) (pal []int, wire []byte) {
+	gb := c12GB(kind)
+	reg := c12Registry(kind)
+	switch {
+	case w == 0:
+		v := int32(c.R.Intn(reg))
+		zero := int32(0)
+		return []int{int(v)}, c12Wire(0, &v, nil, nil, nil, &zero)
+	case w == gb:
+		k := 1 + c.R.Intn(12)
+		pal = c.c12Distinct(kind, k, c.R.Intn(reg))
+		idx := make([]int, n)
+		for i := range idx {
+			idx[i] = pal[c.R.Intn(len(pal))]
+		}
+		bpe := w
+		if c.R.Intn(2) == 0 {
+			if kind == "blocks" {
+				bpe = []int{9, 12, 200}[c.R.Intn(3)]
+			} else {
+				bpe = []int{4, 5, 200}[c.R.Intn(3)]
+			}
+		}
+		return pal, c12Wire(bpe, nil, nil, nil, c12Pack(gb, idx), nil)
+	default:
+		hi := 1 << uint(w)
+		lo := hi/2 + 1
+		if w == 4 && kind == "blocks" {
+			lo = 1
+		}
+		if w == 1 {
+			lo = 1
+		}
+		p := []int{lo, hi, lo + c.R.Intn(hi-lo+1)}[c.R.Intn(3)]
+		pal = c.c12Distinct(kind, p, c.R.Intn(reg))
+		p = len(pal)
+		idx := make([]int, n)
+		for i := range idx {
+			idx[i] = c.R.Intn(p)
+		}
+		pal32 := make([]int32, p)
+		for i, v := range pal {
+			pal32[i] = int32(v)
+		}
+		bpe := w
+		if w == 4 && kind == "blocks" {
+			bpe = 1 + c.R.Intn(4)
+		}
+		return pal, c12Wire(bpe, nil, pal32, nil, c12Pack(w, idx), nil)
+	}
+}
+
+// c12Reload: ONE destination container receives a sequence of wire forms of the given widths; between and after
+// the reloads every position is read, states that only an EARLIER palette contained are set (stale lookup
+// structures of a palette that survived a reload would answer for them), present and fresh states are set, and
+// the container is written again.
+//
+// mutate = false: nothing is set between the reloads (a Set on a single-valued container replaces the
+// storage object, which would hide what a reload leaves behind in it); the Sets come after the last reload.
+func (c *Ctx) c12Reload(kind string, n int, widths []int, mutate bool) {
+	var h *c12Hist
+	if c.R.Intn(2) == 0 {
+		h = c.c12Used(kind, n)
+	} else {
+		h = c12New(kind, n, c.c12Default(kind))
+	}
+	reg := c12Registry(kind)
+	var earlier [][]int
+	for step, w := range widths {
+		pal, wire := c.c12HandWire(kind, n, w)
+		in := append([]byte(nil), wire...)
+		if c.R.Intn(3) == 0 {
+			in = append(in, c.c11Bytes(1+c.R.Intn(3))...)
+		}
+		h.apply(c.c12RF(in))
+		h.apply("all")
+		if c.R.Intn(3) == 0 {
+			h.apply("pal")
+		}
+		if n > 0 && (mutate || step == len(widths)-1) {
+			cur := map[int]bool{}
+			for _, v := range pal {
+				cur[v] = true
+			}
+			// a state only an earlier palette had
+			for tries := 0; tries < 2 && len(earlier) > 0; tries++ {
+				ep := earlier[c.R.Intn(len(earlier))]
+				v := ep[c.R.Intn(len(ep))]
+				if !cur[v] {
+					i := c.R.Intn(n)
+					h.set(i, v)
+					h.get(i)
+					h.get((i + 1) % n)
+					cur[v] = true
+				}
+			}
+			h.set(c.R.Intn(n), pal[c.R.Intn(len(pal))])
+			if c.R.Intn(2) == 0 {
+				h.set(c.R.Intn(n), c.R.Intn(reg))
+			}
+			h.apply("all")
+		}
+		if c.R.Intn(4) == 0 {
+			h.apply("wt")
+		}
+		earlier = append(earlier, pal)
+	}
+	h.apply("pal")
+	h.apply("wt")
+	h.emit(c)
 }
 
 // own VarInt reader for shaping malformed inputs
@@ -671,7 +888,7 @@ func genC12(c *Ctx) {
 					}
 					dst := c.c12Used(kind, n2)
 					in := append(append([]byte(nil), wire...), c.c11Bytes(c.R.Intn(4))...)
-					dst.apply("rf:" + hx(in))
+					dst.apply(c.c12RF(in))
 					dst.apply("all")
 					dst.apply("pal")
 					// the received container goes on being mutated, across further boundaries
@@ -867,6 +1084,45 @@ func genC12(c *Ctx) {
 		}
 	}
 
+	// (7) reload histories: 2..5 ReadFrom calls on ONE container across the width classes
+	for _, kind := range kinds {
+		ws := c12Widths(kind)
+		for _, n := range []int{16, 64, 4096} {
+			reps := c.N(2, 10)
+			if n == 4096 {
+				reps = 1
+			}
+			for r := 0; r < reps; r++ {
+				for _, w := range ws {
+					big := n == 4096 && !c.Thorough()
+					if w != 0 {
+						c.c12Reload(kind, n, []int{w, 0, w}, false) // width, single value, the same width again
+						c.c12Reload(kind, n, []int{w, 0, w}, true)
+						if !big {
+							c.c12Reload(kind, n, []int{w, 0, 0, w, w}, r%2 == 0) // and with repeats
+						}
+					}
+					c.c12Reload(kind, n, []int{w, w}, true) // same class, another palette
+					if !big {
+						c.c12Reload(kind, n, []int{w, w}, false)
+						w2 := ws[c.R.Intn(len(ws))]
+						c.c12Reload(kind, n, []int{w, w2, w}, r%2 == 1)
+					}
+				}
+			}
+			for k := c.N(30, 600); k > 0; k-- {
+				if n == 4096 && k%10 != 0 {
+					continue
+				}
+				seq := make([]int, 2+c.R.Intn(4))
+				for i := range seq {
+					seq[i] = ws[c.R.Intn(len(ws))]
+				}
+				c.c12Reload(kind, n, seq, k%2 == 0)
+			}
+		}
+	}
+
 	// (6) malformed wire input
 	for _, kind := range kinds {
 		for _, n := range []int{16, 64} {
@@ -883,7 +1139,7 @@ func genC12(c *Ctx) {
 					} else {
 						h = c12New(kind, n, c.c12Default(kind))
 					}
-					h.apply("rf:" + hx(in))
+					h.apply(c.c12RF(in))
 					h.apply("all")
 					h.apply("pal")
 					if n > 0 {
@@ -1002,7 +1258,7 @@ func genC12(c *Ctx) {
 				} else {
 					h = c12New(kind, n, c.c12Default(kind))
 				}
-				h.apply("rf:" + hx(in))
+				h.apply(c.c12RF(in))
 				h.apply("all")
 				h.apply("pal")
 				for i := c.R.Intn(4); i > 0; i-- {
@@ -1025,7 +1281,7 @@ func genC12(c *Ctx) {
 				if c.R.Intn(2) == 0 {
 					h = c.c12Used(kind, n)
 				}
-				h.apply("rf:" + hx(in))
+				h.apply(c.c12RF(in))
 				h.apply("all")
 				h.emit(c)
 			}
